@@ -12,7 +12,7 @@ from props import c13, c16
 
 ID = "C17"
 LEAN_MODULES = ["CatiiProps.C17"]
-USES_TRANSLATOR = ['purity', 'purity_methods']
+USES_TRANSLATOR = ['purity', 'purity_methods', 'driver']
 USES_MODEL = False
 RULE = ("every aggregate of C03/C18 on both cube types x every argument form (NaN-marked / (values, validity) with garbage "
         "under False / int64; weights none / scalar / array / pair): every argument buffer (fact values incl. those hidden "
